@@ -28,7 +28,9 @@ class Chars:
 scan_opt = { 'throws': False }
 default_special = {
     'style': None,
-    'script': ['', 'text/javascript', 'application/x-javascript', 'javascript', 'typescript', 'ts', 'coffee', 'coffeescript']
+    'script': ['', 'text/javascript', 'application/x-javascript', 'javascript', 'typescript', 'ts', 'coffee', 'coffeescript',
+               'module', 'application/javascript', 'application/ecmascript', 'text/ecmascript',
+               'application/json', 'application/ld+json', 'importmap']
 }
 default_empty = ['img', 'meta', 'link', 'br', 'base', 'hr', 'area', 'wbr', 'col', 'embed', 'input', 'param', 'source', 'track']
 
